@@ -812,9 +812,6 @@ func (eval Evaluator) mulRelin(op0 *rlwe.Ciphertext, op1 *rlwe.Element[ring.Poly
 		c00 = eval.buffQ[0]
 		c01 = eval.buffQ[1]
 
-		c0 = opOut.Value[0]
-		c1 = opOut.Value[1]
-
 		if !relin {
 			opOut.El().Resize(2, level)
 			c2 = opOut.Value[2]
@@ -822,6 +819,9 @@ func (eval Evaluator) mulRelin(op0 *rlwe.Ciphertext, op1 *rlwe.Element[ring.Poly
 			opOut.El().Resize(1, level)
 			c2 = eval.buffQ[2]
 		}
+
+		c0 = opOut.Value[0]
+		c1 = opOut.Value[1]
 
 		// Avoid overwriting if the second input is the output
 		var tmp0, tmp1 *rlwe.Element[ring.Poly]
@@ -1150,9 +1150,6 @@ func (eval Evaluator) mulRelinThenAdd(op0 *rlwe.Ciphertext, op1 *rlwe.Element[ri
 		c00 = eval.buffQ[0]
 		c01 = eval.buffQ[1]
 
-		c0 = opOut.Value[0]
-		c1 = opOut.Value[1]
-
 		if !relin {
 			opOut.El().Resize(2, level)
 			c2 = opOut.Value[2]
@@ -1160,6 +1157,9 @@ func (eval Evaluator) mulRelinThenAdd(op0 *rlwe.Ciphertext, op1 *rlwe.Element[ri
 			opOut.Resize(utils.Max(1, opOut.Degree()), level)
 			c2 = eval.buffQ[2]
 		}
+
+		c0 = opOut.Value[0]
+		c1 = opOut.Value[1]
 
 		tmp0, tmp1 := op0.El(), op1.El()
 
